@@ -248,6 +248,7 @@ func genC04bundle(o *Out, r *Rng, thorough bool) {
 		}
 	}
 	now := dtnNowMs()
+	rolesDone := map[string]bool{}
 	for i := 0; i < nb; i++ {
 		var bs []byte
 		if i%3 == 0 {
@@ -272,6 +273,22 @@ func genC04bundle(o *Out, r *Rng, thorough bool) {
 					continue
 				}
 				add("advlen", withHeadArg(bs, p, v, false))
+			}
+		}
+		// multiplicative-overflow probes (c04probes.go) at every head that is a length or a count (byte /
+		// text string, array, map), once per role of the head (kind of block, position in it) and group
+		// of 12 bundles
+		if i%12 == 0 {
+			rolesDone = map[string]bool{}
+		}
+		roles := headRoles(bs, hp)
+		for k, p := range hp {
+			if major := bs[p] >> 5; major < 2 || major > 5 || bs[p] == 0x9f || rolesDone[roles[k]] {
+				continue
+			}
+			rolesDone[roles[k]] = true
+			for _, v := range mulOverflowProbes(64, thorough) {
+				add("mulprobe", withHeadArg(bs, p, v, false))
 			}
 		}
 		step := 1
